@@ -1,0 +1,23 @@
+//go:build verif
+
+package kmip
+
+// Contracts for the gocv verifier (see /verif/DESIGN.md). Comment-only; compiled only with -tags verif.
+
+// Operation() of every payload type returns a constant; it has no side effect.
+//@ iface kmip.OperationPayload.Operation
+//@   recv p
+//@   results op
+//@   pure
+
+//@ func NewRequestMessage
+//@   requires len(payloads) <= 2147483647 && (forall k int :: 0 <= k && k < len(payloads) ==> payloads[k] != nil)
+//@   ensures r0.Header.ProtocolVersion == version && len(r0.BatchItem) == len(payloads) && int(r0.Header.BatchCount) == len(payloads)
+//@   ensures forall k int :: 0 <= k && k < len(payloads) ==> r0.BatchItem[k].RequestPayload == payloads[k]
+//@   ensures len(payloads) > 0 ==> isnew(r0.BatchItem)
+//@   pure
+//@   loop 0 invariant -1 <= rangeindex && rangeindex < len(payloads) && len(msg.BatchItem) == rangeindex+1 && off(msg.BatchItem) == 0
+//@   loop 0 invariant msg.Header.ProtocolVersion == version && int(msg.Header.BatchCount) == len(payloads)
+//@   loop 0 invariant forall k int :: 0 <= k && k <= rangeindex ==> msg.BatchItem[k].RequestPayload == payloads[k]
+//@   loop 0 invariant rangeindex >= 0 ==> isnewloop(msg.BatchItem)
+//@   loop 0 invariant rangeindex < 0 ==> msg.BatchItem == nil
